@@ -92,6 +92,13 @@ Proof.
 Qed.
 Print Assumptions C05_codon_align_row.
 
+(* translation by reference without gaps is the plain translation: a FINITE statement, by exhaustive
+   evaluation in the kernel (reference rows of length 6 over {A, C}, second rows over {G, T}, the three
+   phases, standard and invertebrate mitochondrial codes) *)
+Theorem C05_byref_nogap_small : byref_plain_all 6 = true.
+Proof. exact byref_plain_small. Qed.
+Print Assumptions C05_byref_nogap_small.
+
 (* Reference-guided translation: the two clauses of the property are kept as
    explicit statements.  They are NOT proved for the model here; every
    generated case is checked against them by Corr/C05.v spec_ok (bounded). *)
